@@ -301,3 +301,8 @@ def replay_intermediate_notes(trace, viol):
 def checkpoint_races_commit(trace, viol):
     """an agent's checkpoint that resolved the old HEAD as base while a wrapped commit moves the working log"""
     return (trace.get("cfg") or {}).get("scenario") == "ckpt_vs_commit" and viol.get("monitor") == "sched.linearizable"
+
+
+@predicate("stats_ignore_breakdown")
+def stats_ignore_breakdown(trace, viol):
+    return (viol.get("class") or "").startswith("breakdown_does_not_sum") and bool((viol.get("detail") or {}).get("ignore_option"))
